@@ -21,12 +21,20 @@ MUTABLE_CALLS = {'list', 'dict', 'set', 'defaultdict', 'defaultdict2', 'deque', 
                  'PrettyPrintConfig'}
 
 
+APP_SETTINGS = 'nbdime.webapp.<application settings>'
+APP_PARAMS = 'nbdime.webapp.<server start-up parameters>'
+
 # objects reached through a parameter: `<anything>.predicates` / `.differs` of a DiffConfig are (in notebook diffing) the
 # module-level tables of nbdime.diffing.notebooks
 ALIASES = {
     '.predicates': 'nbdime.diffing.notebooks.notebook_predicates',
     '.differs': 'nbdime.diffing.notebooks.notebook_differs',
     '._atomic_paths': 'nbdime.diffing.notebooks.notebook_config._atomic_paths',
+    # state that lives as long as the web application and is shared by all requests: tornado's application settings and the
+    # start-up parameters every handler is initialised with
+    '.settings': APP_SETTINGS,
+    '.application': APP_SETTINGS,
+    '.params': APP_PARAMS,
 }
 
 
@@ -176,6 +184,9 @@ def inventory(repo):
                         name = '%s.%s' % (mod, g)
                         objects.setdefault(name, 'module-level name rebound through `global`')
                         sites.append(Site(name, 'write', qual, n.lineno, 'global %s rebinding' % g))
+    for s in sites:
+        if s.obj in (APP_SETTINGS, APP_PARAMS):
+            objects.setdefault(s.obj, 'application-lived object shared by all requests (reached through handler attributes)')
     return objects, sites, defaults
 
 
